@@ -130,7 +130,8 @@ class Tracer:
             for attr, key in (("_sampling_interval", "sampling_interval"), ("_chain_time", "chain_time"),
                               ("_end_of_run_time", "end_of_run_time"), ("_dumping_interval", "dumping_interval"),
                               ("_chain_length", "chain_length"), ("_speed", "speed"),
-                              ("_first_event_time_zero", "first_event_time_zero")):
+                              ("_first_event_time_zero", "first_event_time_zero"),
+                              ("_output_handler", "output_handler")):
                 if hasattr(h, attr):
                     v = getattr(h, attr)
                     d[key] = f2b(v) if isinstance(v, float) else v
